@@ -191,21 +191,38 @@ Definition outcome_ok (g : graph) (m0 : nat) (o : list clique * graph * nat) : b
   Nat.eqb st 0 && negb (nonemptyb g') && exact_cover_b g m0 cover && isolated_ok_b g m0 cover.
 
 (* ------------------------------------------------------------------ wire *)
-(* c09_run  (edges m0 ranks)  ->  (status cover final_edges rounds max_cliques limited)
-   m0 < 2 on a non-empty graph is what the Python code rejects: m0 = 1 -> ValueError (code 2),
-   m0 = 0 -> IndexError (code 3). *)
+(* c09_run  (edges m0 ranks iso)  ->  (status cover final_edges rounds max_cliques limited)
+   iso = vertices of the working graph that carry no edge (left behind by an earlier get_EECC on the
+   same object; empty for a graph built from edges).  What the Python code rejects:
+   m0 = 0 with any vertex -> IndexError (code 3); m0 = 1 with an edge -> ValueError (code 2);
+   an isolated vertex ends up as a singleton in the cover and the final sort key x[1] raises
+   IndexError (code 3). *)
 Definition c09_run (t : tree) : tree :=
   let g := norm_graph (t_pairs (t_nth 0 t)) in
   let m0 := t_nat (t_nth 1 t) in
   let rs := t_nats (t_nth 2 t) in
-  match g, m0 with
-  | _ :: _, 0 => t_err 3
-  | _ :: _, 1 => t_err 2
-  | _, _ =>
-      let o := eecc_run g m0 rs in
-      L [of_nat (o_status o); of_natss (o_cover o); of_pairs (o_graph o);
-         L (map of_natss (o_trace o)); of_natss (max_cliques g); of_natss (limited g m0)]
+  let iso := t_nats (t_nth 3 t) in
+  let run := let o := eecc_run g m0 rs in
+             L [of_nat (o_status o); of_natss (o_cover o); of_pairs (o_graph o);
+                L (map of_natss (o_trace o)); of_natss (max_cliques g); of_natss (limited g m0)] in
+  match m0 with
+  | 0 => if nonemptyb g || nonemptyb iso then t_err 3 else run
+  | 1 => if nonemptyb g then t_err 2 else if nonemptyb iso then t_err 3 else run
+  | _ => if nonemptyb iso then t_err 3 else run
   end.
+
+(* c09_lim  (edges m0 iso)  ->  (find_cliques  limited_maximal_cliques), isolated vertices as singletons (m0 >= 1) *)
+Definition c09_lim (t : tree) : tree :=
+  let g := norm_graph (t_pairs (t_nth 0 t)) in
+  let m0 := t_nat (t_nth 1 t) in
+  let single := map (fun v => [v]) (t_nats (t_nth 2 t)) in
+  L [of_natss (sort_cl (single ++ max_cliques g)); of_natss (sort_cl (single ++ limited g m0))].
+
+(* c09_all  (edges m0)  ->  every outcome (status cover) over all tie-break sequences *)
+Definition c09_all (t : tree) : tree :=
+  let g := norm_graph (t_pairs (t_nth 0 t)) in
+  let m0 := t_nat (t_nth 1 t) in
+  L (map (fun o => L [of_nat (snd o); of_natss (fst (fst o))]) (eecc_all g m0)).
 
 (* c09_check  (edges m0 cover has_edges_after)  ->  (exact_cover graph_empty isolated_intact) *)
 Definition c09_check (t : tree) : tree :=
